@@ -19,8 +19,11 @@
 (*   "UNI"  any other character PyYAML's emitter regards as printable      *)
 (*   "UDIG" such a character for which str.isdigit() holds                 *)
 (*   "USP"  such a character for which str.isspace() holds                 *)
-(*   "CSP"  a control character for which str.isspace() holds (x0b, x0c..) *)
-(*   "CTL"  any other character (controls, surrogates, uFFFE..)            *)
+(*   "CSP"  an ASCII control character for which str.isspace() holds       *)
+(*          (x0b, x0c, x1c-x1f)                                            *)
+(*   "CTL"  any other ASCII control character below x20                    *)
+(*   "NPR"  any other character PyYAML regards as NOT printable: x7f, the   *)
+(*          C1 controls x80-x9f (but x85), uFFFE, uFFFF, surrogates        *)
 (*                                                                         *)
 (* Layers:                                                                 *)
 (*   Ref   StrRoundTrip, NumberTextResolves: the laws C01 needs.           *)
@@ -181,7 +184,7 @@ LoaderTag(t) == Resolve(LoaderResolvers, t)      \* what jsonargparse's loader r
 (***************************************************************************)
 WS      == {"NUL", " ", "TAB", "CR", "LF", "NEL", "LS", "PS"}          \* '\0 \t\r\n\x85  '
 Breaks  == {"LF", "NEL", "LS", "PS"}
-Special == {"TAB", "CR", "NUL", "BOM", "CTL", "CSP"}                    \* neither printable ASCII, '\n', nor allowed unicode (:699-707)
+Special == {"TAB", "CR", "NUL", "BOM", "CTL", "CSP", "NPR"}             \* neither printable ASCII, '\n', nor allowed unicode (:699-707)
 LeadInd == {"#", ",", "[", "]", "{", "}", "&", "*", "!", "|", ">", "'", "\"", "%", "@", "`"}
 
 FollowedByWS(t, i)  == i + 1 > Len(t) \/ t[i + 1] \in WS               \* :658-659, :735-736
@@ -209,12 +212,20 @@ AllowBlockPlain(t) ==
        /\ ~LineBreaks(t)                                                           \* :767-768
        /\ ~BlockIndicators(t)                                                      \* :775-776
 PlainAllowed(t) == AllowBlockPlain(t)
+Multiline(t)    == LineBreaks(t)                                                   \* :779
+AllowSingleQuoted(t) == t = << >> \/ ~(BreakSpace(t) \/ SpaceBreak(t) \/ SpecialChars(t))   \* :756-763
 
-\* Serializer.serialize_node + Emitter.choose_scalar_style (yaml/serializer.py:85-95, emitter.py:488-507) for a
-\* Python str in a block collection: plain iff the dumper's own resolver would read the plain text as a str
-\* (implicit[0]) and the analysis allows a plain scalar (an empty / multi-line scalar is never plain anyway).
-YamlWriteStrFrom(dtag, plainOk, t) == IF dtag = "str" /\ plainOk /\ t # << >> THEN "plain" ELSE "quoted"
-YamlWriteStr(t) == YamlWriteStrFrom(DumperTag(t), PlainAllowed(t), t)
+\* Serializer.serialize_node + Emitter.choose_scalar_style (yaml/serializer.py:85-90, emitter.py:494-513) for a
+\* Python str in a block collection.  Plain iff the dumper's own resolver would read the plain text as a str
+\* (implicit[0]) and the analysis allows a plain scalar; otherwise single-quoted when allowed, else double-quoted
+\* (which escapes every character that is not printable).  A mapping KEY is styled like a value: the clauses on
+\* simple_key_context (:500-501, :510-511) concern empty / multi-line scalars only, and check_simple_key (:437-455)
+\* writes exactly those (and keys of 128+ characters) as complex keys `? key`, outside simple_key_context.
+YamlStyleFrom(dtag, plainOk, t) ==
+  IF dtag = "str" /\ plainOk /\ t # << >> THEN "plain"                  \* :499-504
+  ELSE IF AllowSingleQuoted(t) THEN "single"                            \* :509-512
+  ELSE "double"                                                         \* :513
+YamlWriteStr(t) == YamlStyleFrom(DumperTag(t), PlainAllowed(t), t)      \* as a mapping value, a mapping key or a sequence item
 
 (***************************************************************************)
 (* Alg: reading a scalar back.  A scalar VALUE is [k |-> kind, v |-> text] *)
@@ -250,14 +261,51 @@ ReadPlainFrom(tag, t) ==                                             \* the load
     [] tag = "null"  -> NullV
     [] OTHER         -> V("error", t)                                \* merge / value / yaml as a value: no safe constructor
 ReadPlain(t) == ReadPlainFrom(LoaderTag(t), t)
-YamlRead(style, t) == IF style = "plain" THEN ReadPlain(t) ELSE StrV(t)   \* quoted scalars are strings (scanner trusted)
-ReadBackFrom(style, ltag, t) == IF style = "plain" THEN ReadPlainFrom(ltag, t) ELSE StrV(t)
-ReadBack(t) == YamlRead(YamlWriteStr(t), t)                          \* yaml_load(yaml_dump(str))
+\* QUOTED scalars with RAW line breaks.  Scanner.scan_flow_scalar_spaces / scan_flow_scalar_breaks / scan_line_break
+\* (yaml/scanner.py:1228-1275, 1416-1434) read a stretch  blanks* break (blanks* break)* blanks*  inside a quoted scalar as:
+\* the first break NORMALISED (x85 -> '\n'; u2028 / u2029 kept), dropped when it is '\n' (a lone '\n' becomes one
+\* space), then the other breaks normalised; all the blanks around are dropped.
+RawBreaks == {"LF", "NEL", "LS", "PS"}
+RawBlank  == {" "}
+NormBreaks(r) == [k \in 1..Len(r) |-> IF r[k] = "NEL" THEN "LF" ELSE r[k]]
+\* the stretch that starts at i (t[i] a blank or a break) and contains a break: its end, else 0
+RECURSIVE StretchEnd(_, _, _)
+StretchEnd(t, j, sawBreak) ==            \* j: next position to look at
+  IF j <= Len(t) /\ t[j] \in RawBreaks THEN StretchEnd(t, j + 1, TRUE)
+  ELSE IF j <= Len(t) /\ t[j] \in RawBlank THEN StretchEnd(t, j + 1, sawBreak)
+  ELSE IF sawBreak THEN j - 1 ELSE 0
+RECURSIVE ReadQuotedRaw(_, _)
+ReadQuotedRaw(t, i) ==
+  IF i > Len(t) THEN << >>
+  ELSE IF t[i] \notin RawBreaks \cup RawBlank THEN <<t[i]>> \o ReadQuotedRaw(t, i + 1)
+  ELSE LET e == StretchEnd(t, i, FALSE) IN
+       IF e = 0 THEN <<t[i]>> \o ReadQuotedRaw(t, i + 1)                          \* blanks that no break follows
+       ELSE LET brs == NormBreaks(SelectSeq(SubSeq(t, i, e), LAMBDA c : c \in RawBreaks))
+                got == IF brs[1] = "LF" THEN (IF Len(brs) = 1 THEN <<" ">> ELSE Tail(brs)) ELSE brs
+            IN got \o ReadQuotedRaw(t, e + 1)
+\* Emitter.write_single_quoted (yaml/emitter.py:854-907) writes the breaks of a str raw; a run of breaks that STARTS
+\* with '\n' gets one more '\n' in front.  With allow_unicode=True (dump_yaml_kwargs) x85 is not escaped, so it is lost.
+RECURSIVE SingleWritten(_, _)
+SingleWritten(t, i) ==
+  IF i > Len(t) THEN << >>
+  ELSE IF t[i] = "LF" /\ (i = 1 \/ t[i - 1] \notin RawBreaks) THEN <<"LF", "LF">> \o SingleWritten(t, i + 1)
+  ELSE <<t[i]>> \o SingleWritten(t, i + 1)
+ReadSingle(t) == ReadQuotedRaw(SingleWritten(t, 1), 1)
+\* json.dumps(ensure_ascii=False) (dump_json_kwargs) escapes '"', '\\' and the characters below x20 only; the text is
+\* then read by the YAML loader as a double-quoted scalar: raw x85 / u2028 / u2029 are line breaks (folded as above),
+\* and a raw character that PyYAML's reader does not accept (yaml/reader.py:136) rejects the whole document.
+JsonRaw(t)    == [k \in 1..Len(t) |-> IF t[k] = "LF" THEN "\\n" ELSE t[k]]          \* '\n' travels escaped
+JsonUnraw(t)  == [k \in 1..Len(t) |-> IF t[k] = "\\n" THEN "LF" ELSE t[k]]
+ReadJsonString(t) == IF Has(t, "NPR") THEN V("error", t) ELSE V("str", JsonUnraw(ReadQuotedRaw(JsonRaw(t), 1)))
+\* double-quoted scalars escape everything that is not printable: read back as written (scanner trusted)
+YamlRead(style, t) == CASE style = "plain" -> ReadPlain(t) [] style = "single" -> StrV(ReadSingle(t)) [] style = "json" -> ReadJsonString(t) [] OTHER -> StrV(t)
+ReadBackFrom(style, ltag, t) == CASE style = "plain" -> ReadPlainFrom(ltag, t) [] style = "single" -> StrV(ReadSingle(t)) [] OTHER -> StrV(t)
+ReadBack(t)    == YamlRead(YamlWriteStr(t), t)                       \* yaml_load(yaml_dump({k: t}))[k], and the same for a key / an item
 
 (***************************************************************************)
 (* Ref: the round-trip law for strings, and the named deviations           *)
 (***************************************************************************)
-StrRoundTrip(t) == ReadBack(t) = StrV(t)
+StrRoundTrip(t)    == ReadBack(t) = StrV(t)
 
 \* Family 1: the replacement float pattern accepts an exponent WITHOUT sign and a mantissa WITHOUT dot
 \* (alternatives :70 and :71), which the stock dumper does not regard as floats: 1e3 1E3 1e+3 1.e3 -9e1 1_0e3
@@ -265,17 +313,30 @@ DevExponent(t)   == (FullMatch(CustomFloat1, t) \/ FullMatch(CustomFloat2, t)) /
 \* Family 2: alternative :72 lets the mantissa after the dot START with '_' (stock: a digit): ._1  ._  .__  ._5e+3
 DevDotUnderscore(t) == FullMatch(CustomFloat3, t) /\ ~FullMatch(StockFloat, t)
 FloatFirst(t) == t # << >> /\ t[1] \in NumFirst \cup {"."}            \* every float alternative starts with a sign, a digit or a dot
-Deviation(t) == IF ~FloatFirst(t) THEN "none"
-                ELSE IF DevExponent(t) THEN "loader-float-without-dot-or-signed-exponent"
-                ELSE IF DevDotUnderscore(t) THEN "loader-float-dot-underscore"
-                ELSE "none"
+FloatDeviation(t) == IF ~FloatFirst(t) THEN "none"
+                     ELSE IF DevExponent(t) THEN "loader-float-without-dot-or-signed-exponent"
+                     ELSE IF DevDotUnderscore(t) THEN "loader-float-dot-underscore"
+                     ELSE "none"
+\* Family 4: a NEL (x85) inside a str that is written single-quoted is folded away (see ReadSingle)
+DevNelFrom(style, t) == style = "single" /\ Has(t, "NEL")
+\* Families 5, 6 (JSON text read by the YAML loader): raw line breaks are folded; unprintable characters are rejected
+JsonStrRoundTrip(t) == ReadJsonString(t) = StrV(t)
+HasRawBreak(t) == Has(t, "NEL") \/ Has(t, "LS") \/ Has(t, "PS")
+JsonStrDeviation(t) == IF Has(t, "NPR") THEN "json-unescaped-nonprintable-rejected"
+                       ELSE IF ~JsonStrRoundTrip(t) /\ HasRawBreak(t) THEN "json-raw-line-break"
+                       ELSE "none"
+\* as the KEY of a JSON object the same text must fit on one line (a YAML simple key): any raw break rejects the document
+ReadJsonKey(t) == IF Has(t, "NPR") \/ HasRawBreak(t) THEN V("error", t) ELSE V("str", t)
+JsonKeyDeviation(t) == IF Has(t, "NPR") THEN "json-unescaped-nonprintable-rejected" ELSE IF HasRawBreak(t) THEN "json-raw-line-break" ELSE "none"
+DeviationFrom(style, t) == IF DevNelFrom(style, t) THEN "nel-folded-in-single-quoted-scalar" ELSE FloatDeviation(t)
+Deviation(t)    == DeviationFrom(YamlWriteStr(t), t)
 StrRoundTripModuloKnown(t) == StrRoundTrip(t) \/ Deviation(t) # "none"
 DeviationsAreReal(t)       == Deviation(t) # "none" => ~StrRoundTrip(t)
 \* design facts that make the law hold everywhere else (checked by TLC on every text of the instance):
 \* the loader never reads a non-string where the dumper sees a string, except through the replaced float pattern
 OnlyFloatDiffers(t) == (DumperTag(t) = "str" /\ LoaderTag(t) # "str") => LoaderTag(t) = "float"
 \* removing `timestamp` from the loader is the safe direction: the dumper quotes, the loader would not have needed it
-TimestampSafe(t)    == DumperTag(t) = "timestamp" => (LoaderTag(t) = "str" /\ YamlWriteStr(t) = "quoted")
+TimestampSafe(t)    == DumperTag(t) = "timestamp" => (LoaderTag(t) = "str" /\ YamlWriteStr(t) # "plain")
 
 (***************************************************************************)
 (* Numbers, booleans and null as the two dumpers spell them                *)
